@@ -299,6 +299,15 @@ func pathExpr(v ssa.Value) string {
 		return "&" + strings.TrimPrefix(pathExpr(x.X), "&") + "[" + pathExpr(x.Index) + "]"
 	case *ssa.Index:
 		return pathExpr(x.X) + "[" + pathExpr(x.Index) + "]"
+	case *ssa.Slice:
+		lo, hi := "", ""
+		if x.Low != nil {
+			lo = pathExpr(x.Low)
+		}
+		if x.High != nil {
+			hi = pathExpr(x.High)
+		}
+		return strings.TrimPrefix(pathExpr(x.X), "&") + "[" + lo + ":" + hi + "]"
 	case *ssa.Convert:
 		return pathExpr(x.X)
 	case *ssa.ChangeType:
